@@ -926,7 +926,7 @@ func checkC13(c *ctx) {
 	var runs []run
 	nBam, nCR := 60, 500
 	if c.thorough() {
-		nBam, nCR = 3000, 30000
+		nBam, nCR = 600, 8000
 	}
 	for k := 0; k < nBam; k++ {
 		b := genC13Bam(c.rnd)
